@@ -280,12 +280,15 @@ def register(M):
             return Sc(X.num(Fr(m.group(1)) * unit), 'm8', 'ns')
         if args and isinstance(args[0], Sc) and args[0].dtype == 'm8' and len(args) == 1 and not kw:
             return args[0]
+        if len(args) == 1 and isinstance(args[0], (int, Fr)) and set(kw) == {'unit'} and kw['unit'] in UNIT_SECONDS:
+            return Sc(X.num(Fr(args[0]) * UNIT_SECONDS[kw['unit']]), 'm8', 'ns')
         total = Fr(0)
-        for k, u in (('seconds', 1), ('minutes', 60), ('hours', 3600), ('days', 86400), ('milliseconds', Fr(1, 1000))):
+        units = {'weeks': 604800, 'days': 86400, 'hours': 3600, 'minutes': 60, 'seconds': 1, 'milliseconds': Fr(1, 1000), 'microseconds': Fr(1, 10**6), 'nanoseconds': Fr(1, 10**9)}
+        if args or not kw or set(kw) - set(units):
+            raise AnalysisError('pd.Timedelta form not modelled', node)
+        for k, u in units.items():
             if k in kw:
                 total += M.conc_num(kw[k], node) * u
-        if args or not kw:
-            raise AnalysisError('pd.Timedelta form not modelled', node)
         return Sc(X.num(total), 'm8', 'ns')
 
     @ext('pandas.isna', 'pandas.isnull')
